@@ -24,7 +24,7 @@ ASSUMPTIONS = [
 SHARDS = {'quick': 16, 'thorough': 16}
 BUDGET_S = {'quick': 50, 'thorough': 560}
 N_SENTENCES = {'quick': 2400, 'thorough': 40000}
-MIN_OBS = {'outcome': {'quick': 800, 'thorough': 8000}}
+MIN_OBS = {'outcome': {'quick': 300, 'thorough': 3000}}
 STEP_BUDGET = 400_000
 
 
